@@ -167,6 +167,7 @@ def worker_main(argv):
     import hypothesis
     from hypothesis import HealthCheck, Phase, given, settings
 
+    os.environ["VERIF_TIER_EFFECTIVE"] = tier
     mod = load_prop(prop_id)
     known = load_known()
     stats = Stats()
